@@ -105,12 +105,27 @@ def emit(p, fname, naming=0):
         cmpop, first, second = (NEG[p["cmp"]], E, T) if pres["flip"] else (p["cmp"], T, E)
         return sig + "\t%s := pick(%s)\n\tif %s %s %s {\n\t\treturn %s\n\t} else {\n\t\treturn %s\n\t}\n}\n" % (
             q, a, q, cmpop, json.dumps(lit), first, second)
+    if t in ("sharedcmp", "fltbranch"):
+        x, c = N["x"], N["y"]
+        T, E = expr(p["thenE"], N, pres), expr(p["elseE"], N, pres)
+        cmpop, first, second = (NEG[p["cmp"]], E, T) if pres["flip"] else (p["cmp"], T, E)
+        if t == "sharedcmp":
+            r = b if p["rhs"] == "b" else "3"
+            return sig + ("\t%s := %s %s %s\n\t%s := 0\n\tif %s {\n\t\t%s = %s\n\t} else {\n\t\t%s = %s\n\t}\n\treturn %s + b2i(%s)\n}\n"
+                          % (c, a, cmpop, r, x, c, x, first, x, second, x, c))
+        return sig + "\t%s := float64(%s) / float64(%s)\n\tif %s %s 1 {\n\t\treturn %s\n\t} else {\n\t\treturn %s\n\t}\n}\n" % (
+            x, a, b, x, cmpop, first, second)
+    if t == "extract":
+        x, y = N["x"], N["y"]
+        v = x if p["sel"] == "x" else y
+        return sig + "\t%s := dm(%s, %s)\n\treturn %s*2 + %d\n}\n" % (
+            "%s, _" % v if p["sel"] == "x" else "_, %s" % v, a, b, v, p["small"])
     if t == "bigconst":
         return sig + "\tif %s > %d {\n\t\treturn %s + %d\n\t}\n\treturn %s + %d\n}\n" % (a, p["k1"], b, p["k2"], b, p["small"])
     raise KeyError(t)
 
 
-HEADER = 'package %s\n\nimport (\n\t"math/bits"\n\t"unicode/utf16"\n\t"unicode/utf8"\n)\n\nvar _ = bits.Len8\nvar _ = utf16.RuneLen\nvar _ = utf8.RuneLen\n\nfunc clamp(v int) int {\n\tif v < 0 {\n\t\treturn 0\n\t}\n\tif v > 4 {\n\t\treturn 4\n\t}\n\treturn v\n}\n\nvar picks = [5]string{"", "ab", "abc", "abd", "b"}\n\nfunc pick(v int) string { return picks[clamp(v)] }\n\nvar tabs = [5][]int{{}, {1}, {3, -1}, {2, 2, 5}, {0, 4, 1, 7}}\n\nfunc tab(v int) []int { return tabs[clamp(v)] }\n\n'
+HEADER = 'package %s\n\nimport (\n\t"math/bits"\n\t"unicode/utf16"\n\t"unicode/utf8"\n)\n\nvar _ = bits.Len8\nvar _ = utf16.RuneLen\nvar _ = utf8.RuneLen\n\nfunc clamp(v int) int {\n\tif v < 0 {\n\t\treturn 0\n\t}\n\tif v > 4 {\n\t\treturn 4\n\t}\n\treturn v\n}\n\nvar picks = [5]string{"", "ab", "abc", "abd", "b"}\n\nfunc pick(v int) string { return picks[clamp(v)] }\n\nvar tabs = [5][]int{{}, {1}, {3, -1}, {2, 2, 5}, {0, 4, 1, 7}}\n\nfunc tab(v int) []int { return tabs[clamp(v)] }\n\nfunc b2i(c bool) int {\n\tif c {\n\t\treturn 1\n\t}\n\treturn 0\n}\n\nfunc dm(x, y int) (int, int) { return x + y, x - y }\n\n'
 
 
 def render_file(pkg, items):
